@@ -5,6 +5,28 @@ sys.path.insert(0, os.path.dirname(os.path.abspath(__file__)))
 from seeded_meta import NEEDS
 
 TRIALS = "/tmp/trials"
+# strengthened in anticipation (the author's summary was read before the first trial run)
+ANTICIPATED = {"C09-B", "C10-A", "C14-A", "C14-B", "C15-B", "C16-B", "C17-A", "C17-B", "C18-B", "C19-A", "C19-B", "C20-B", "C13-A", "C12-A", "C04-A"}
+STRENGTHENED = [
+    ("C02-A", "no generated project had a command reporting a dependency on a *generated* file it only has an order-only edge to (the classic generated-header case); added to the generator (ap.rs)"),
+    ("C04-B", "the C04 workload had no regenerated manifest; added generations that change pool depths (sched.rs)"),
+    ("C08-B", "C08's histories never changed what a command reports; include-set edits added to its operation mix (hist.rs)"),
+    ("C13-B", "C13 had no in-process stage for dependencies *reported* under other spellings; C09's histories now also run under C13 (hist.rs)"),
+    ("C18-A", "regenerated manifests in the C18 workload were textually identical (same internal numbering); generations that insert a statement in front added (sched.rs)"),
+    ("C09-B", "E2 plans made failing commands silent; failing deps=msvc commands now print their include notes (real.rs)"),
+    ("C10-A / C11", "variable names never contained '-'; `opt-level` added (pure/manifest.rs)"),
+    ("C14-A", "a repeat followed by a further output that a later statement claims was not generated; added (pure/manifest_dups.rs)"),
+    ("C13-A / C14-B", "paths deeper than 60 components were skipped after fix F5 made them legal; added to C13's random part and C14's duplicate injection"),
+    ("C15-B", "blank lines in generated depfiles were empty; whitespace-only lines added (pure/depfile.rs)"),
+    ("C16-B", "every C16 task had one output; nested second/third outputs added (props/real_c16.rs)"),
+    ("C17-A", "generator rules never carried hide_success; added (ap.rs quiet_generator)"),
+    ("C17-B / C18-A", "new statements of a generation were appended near the end (numbering of existing files unchanged); now inserted anywhere"),
+    ("C18-B", "`default` statements were literal; spelled through a variable when commands are (ap.rs via_vars)"),
+    ("C19-A", "StateCounts::total() was not observable in-process; exposed by hook 40471d7 and compared with the sum of the counts (sim.rs)"),
+    ("C19-B", "the C19 workload had no `-t restat` invocation; added as a follow-up (sched.rs)"),
+    ("C20-B", "count vectors were exhaustive only up to a total of 12; all (finished, in flight, waiting) triples up to 130 each added (pure/render.rs)"),
+    ("C04-A", "restat-like (write-if-changed) commands were off in the C04 workload; switched on"),
+]
 OUT = "/verif/seeded"
 
 def load(p):
@@ -64,7 +86,12 @@ for f in sorted(glob.glob(os.path.join(TRIALS, "*.confirm.json"))):
     }
     json.dump(meta, open(os.path.join(d, "meta.json"), "w"), indent=1)
     caught = [k for k, v in det.items() if v["exit"] == 1]
-    rows.append((sid, what, needs, ", ".join("%s (%s)" % (k, "; ".join(det[k]["signatures"][:2])) for k in caught) or "MISSED by " + ", ".join(det.keys())))
+    note = ""
+    if any(v.get("missed_before_strengthening") for v in det.values()):
+        note = " — missed on the first trial; reported after the workload was extended (see below)"
+    elif sid in ANTICIPATED:
+        note = " — workload extended after reading the change's description, before its first trial"
+    rows.append((sid, what, needs, (", ".join("%s (%s)" % (k, "; ".join(det[k]["signatures"][:2])) for k in caught) or "MISSED by " + ", ".join(det.keys())) + note))
 
 with open(os.path.join(OUT, "RESULTS.md"), "w") as f:
     f.write("# Seeded changes and which quick checks report them\n\n")
@@ -73,4 +100,9 @@ with open(os.path.join(OUT, "RESULTS.md"), "w") as f:
     f.write("| id | change | needs | reported by (first signatures) |\n|---|---|---|---|\n")
     for r in rows:
         f.write("| %s | %s | %s | %s |\n" % r)
+with open(os.path.join(OUT, "RESULTS.md"), "a") as f:
+    f.write("\n## What was extended because of these changes\n\n")
+    for k, v in STRENGTHENED:
+        f.write("* **%s** — %s\n" % (k, v))
+    f.write("\nNo check was loosened, and no oracle was changed to fit a seeded change; all extensions are new workload shapes or one new observation point (the total() hook).\n")
 print(open(os.path.join(OUT, "RESULTS.md")).read())
